@@ -1186,6 +1186,11 @@ typemembers(struct type *t, bool print)
 
 	align = 1;
 	for (m = t->u.structunion.members, off = 0, end = 0; m;) {
+		/* a flexible array member or zero-length array occupies no storage */
+		if (m->type->size == 0 && m->type->kind == TYPEARRAY) {
+			m = m->next;
+			continue;
+		}
 		if (t->kind == TYPESTRUCT) {
 			/* look for a subsequent member with a larger storage unit */
 			for (other = m->next; other; other = other->next) {
